@@ -67,18 +67,27 @@ func (c *c13p) run(pc PRTCase) {
 	var j1, b1, j2 []byte
 	pj := p2j.NewBinaryConv(conv.Options{})
 	jp := j2p.NewBinaryConv(conv.Options{})
-	if stage("st1", func() (err error) { j1, err = pj.Do(context.Background(), c.env.droot, append([]byte(nil), doc...)); return }) {
+	if stage("st1", func() (err error) {
+		j1, err = pj.Do(context.Background(), c.env.droot, append([]byte(nil), doc...))
+		return
+	}) {
 		ev["text"] = string(j1)
 		if d, perr := parseChecked(j1); perr != nil {
 			ev["st1"] = "badjson"
 		} else {
 			ev["d1"] = d
-			if stage("st2", func() (err error) { b1, err = jp.Do(context.Background(), c.env.droot, append([]byte(nil), j1...)); return }) {
+			if stage("st2", func() (err error) {
+				b1, err = jp.Do(context.Background(), c.env.droot, append([]byte(nil), j1...))
+				return
+			}) {
 				if back, derr := refDecode(c.env.rroot, b1); derr != nil {
 					ev["st2"] = "reference-rejects"
 				} else {
 					ev["back"] = back
-					if stage("st3", func() (err error) { j2, err = pj.Do(context.Background(), c.env.droot, append([]byte(nil), b1...)); return }) {
+					if stage("st3", func() (err error) {
+						j2, err = pj.Do(context.Background(), c.env.droot, append([]byte(nil), b1...))
+						return
+					}) {
 						if d3, perr := parseChecked(j2); perr != nil {
 							ev["st3"] = "badjson"
 						} else {
